@@ -76,12 +76,21 @@ def record(fn, optname, opt):
         rec['detail'] = 'reparse: %r' % (e,)
     try:
         code = malt.to_code(fn, recursive=opt['recursive'], experimental_optional_features=feats or None)
-        shown = ast.parse(code).body[0]
+        try:
+            shown = ast.parse(code).body[0]
+        except IndentationError:
+            # textwrap.dedent cannot dedent a function whose string literals have lines at column 0: to_code then
+            # returns the (still indented) text of the loaded function; it is compared as it is
+            shown = ast.parse('if 1:\n' + code).body[0].body[0]
         g2 = malt.to_graph(fn, recursive=opt['recursive'], experimental_optional_features=feats or None)
         import inspect
         loaded_text = open(inspect.getsourcefile(g2)).read()
         seg = inspect.getsource(g2)
-        if pipeline.shape(shown) != pipeline.shape(tree) or seg not in loaded_text or textwrap.dedent(seg) != code:
+        # "the text returned by to_code is the text of the module that was actually loaded": the function shown,
+        # the function of that name in the module file loaded for to_graph, and the transformed tree are one program
+        loaded_fns = [n for n in ast.walk(ast.parse(loaded_text)) if isinstance(n, ast.FunctionDef) and n.name == g2.__name__]
+        if (pipeline.shape(shown) != pipeline.shape(tree) or seg not in loaded_text or not loaded_fns
+                or pipeline.shape(loaded_fns[0]) != pipeline.shape(shown)):
             rec['tocode'] = 0
             rec['detail'] = 'to_code text is not the loaded function'
     except Exception as e:
